@@ -32,12 +32,14 @@ func pathKey(v ssa.Value) (string, bool) {
 }
 
 type k4val struct {
-	kind int // 0 undefined, 1 bool, 2 num, 3 opaque (ssa value identity), 4 string
+	kind int // 0 undefined, 1 bool, 2 num, 3 opaque (path key), 4 string, 5 tuple, 7 func, 8 slice
 	b    bool
 	f    float64
 	s    string
 	v    ssa.Value
 	tup  []k4val
+	// slices (kind 8): s = base key of the backing array
+	off, ln, cp int
 }
 
 func (v k4val) String() string {
@@ -59,6 +61,8 @@ func (v k4val) String() string {
 			return extName(f)
 		}
 		return "func"
+	case 8:
+		return fmt.Sprintf("%s[%d:%d]", v.s, v.off, v.off+v.ln)
 	case 5:
 		var p []string
 		for _, t := range v.tup {
@@ -86,6 +90,8 @@ type k4interp struct {
 	frameID int
 	inline  func(f *ssa.Function) bool
 	mem     map[string]k4val // symbolic memory: address key -> value (overrides the model)
+	// opaqueCall (optional) names calls of opaque function values by their arguments
+	opaqueCall func(args []k4val) (string, bool)
 	// stores performed on non-local memory, in order (for rules that inspect effects)
 	effects []string
 }
@@ -211,8 +217,13 @@ func (it *k4interp) call(f *ssa.Function, args []k4val, fvs []k4val) ([]k4val, e
 				if _, err := it.eval(fr, x); err != nil && err == errK4Undecided {
 					return nil, err
 				}
+			case *ssa.UnOp:
+				// loads are evaluated in program order (a later store must not be observed)
+				if x.Op == token.MUL {
+					_, _ = it.eval(fr, x)
+				}
 			case ssa.Value:
-				// evaluated lazily
+				// pure: evaluated lazily
 			}
 		}
 		if fr.cur == b {
@@ -269,11 +280,26 @@ func (it *k4interp) addrKey(fr *k4frame, addr ssa.Value) (string, error) {
 		}
 		return b + "." + fieldName(a.X.Type(), a.Field), nil
 	case *ssa.IndexAddr:
-		b, err := it.addrKey(fr, a.X)
+		iv, err := it.eval(fr, a.Index)
 		if err != nil {
 			return "", err
 		}
-		iv, err := it.eval(fr, a.Index)
+		if _, isSlice := a.X.Type().Underlying().(*types.Slice); isSlice {
+			sv, err := it.eval(fr, a.X)
+			if err != nil {
+				return "", err
+			}
+			if sv.kind == 8 {
+				if iv.kind != 2 {
+					return "", fmt.Errorf("symbolic index into a modelled slice")
+				}
+				if int(iv.f) < 0 || int(iv.f) >= sv.ln {
+					return "", fmt.Errorf("index %d out of range [0,%d) in interpreted code", int(iv.f), sv.ln)
+				}
+				return fmt.Sprintf("%s[%d]", sv.s, sv.off+int(iv.f)), nil
+			}
+		}
+		b, err := it.addrKey(fr, a.X)
 		if err != nil {
 			return "", err
 		}
@@ -681,7 +707,47 @@ func (it *k4interp) eval1(fr *k4frame, v ssa.Value) (k4val, error) {
 			return t.tup[x.Index], nil
 		}
 		return it.opaque(fr, x)
+	case *ssa.MakeSlice:
+		l, err := it.eval(fr, x.Len)
+		if err != nil {
+			return l, err
+		}
+		cp, err := it.eval(fr, x.Cap)
+		if err != nil {
+			return cp, err
+		}
+		if l.kind != 2 || cp.kind != 2 {
+			return k4val{}, fmt.Errorf("make with symbolic length")
+		}
+		it.frameID++
+		base := fmt.Sprintf("M%d", it.frameID)
+		el := x.Type().Underlying().(*types.Slice).Elem()
+		for i := 0; i < int(cp.f); i++ {
+			it.mem[fmt.Sprintf("%s[%d]", base, i)] = zeroOf(el)
+		}
+		return k4val{kind: 8, s: base, ln: int(l.f), cp: int(cp.f)}, nil
 	case *ssa.Slice:
+		if sv, err := it.eval(fr, x.X); err == nil && sv.kind == 8 {
+			lo, hi := 0, sv.ln
+			if x.Low != nil {
+				v, err := it.eval(fr, x.Low)
+				if err != nil || v.kind != 2 {
+					return k4val{}, fmt.Errorf("symbolic slice bound")
+				}
+				lo = int(v.f)
+			}
+			if x.High != nil {
+				v, err := it.eval(fr, x.High)
+				if err != nil || v.kind != 2 {
+					return k4val{}, fmt.Errorf("symbolic slice bound")
+				}
+				hi = int(v.f)
+			}
+			if lo < 0 || hi < lo || hi > sv.cp {
+				return k4val{}, fmt.Errorf("slice bounds [%d:%d] out of capacity %d in interpreted code", lo, hi, sv.cp)
+			}
+			return k4val{kind: 8, s: sv.s, off: sv.off + lo, ln: hi - lo, cp: sv.cp - lo}, nil
+		}
 		if x.Low == nil && x.High == nil {
 			if _, isPtr := x.X.Type().Underlying().(*types.Pointer); isPtr {
 				k, err := it.addrKey(fr, x.X)
@@ -723,6 +789,9 @@ func (it *k4interp) eval1(fr *k4frame, v ssa.Value) (k4val, error) {
 				if a.kind == 4 {
 					return k4val{kind: 2, f: float64(len(a.s))}, nil
 				}
+				if a.kind == 8 {
+					return k4val{kind: 2, f: float64(a.ln)}, nil
+				}
 				return it.lookup("len("+a.String()+")", x.Type())
 			}
 		}
@@ -740,6 +809,19 @@ func (it *k4interp) eval1(fr *k4frame, v ssa.Value) (k4val, error) {
 				}
 			}
 		}
+		if cal == nil && it.opaqueCall != nil && !x.Call.IsInvoke() {
+			var args []k4val
+			for _, a := range x.Call.Args {
+				av, err := it.eval(fr, a)
+				if err != nil {
+					return k4val{}, err
+				}
+				args = append(args, av)
+			}
+			if k, ok := it.opaqueCall(args); ok {
+				return it.lookup(k, x.Type())
+			}
+		}
 		if cal != nil {
 			if r, ok, err := it.nativeMath(fr, x, extName(cal)); ok {
 				return r, err
@@ -755,12 +837,12 @@ func (it *k4interp) eval1(fr *k4frame, v ssa.Value) (k4val, error) {
 				args = append(args, av)
 			}
 			if len(cal.FreeVars) > 0 && fvs == nil {
-				if mc, ok := x.Call.Value.(*ssa.MakeClosure); ok {
-					for _, b := range mc.Bindings {
-						k, err := it.addrKey(fr, b)
-						if err != nil {
-							return k4val{}, err
-						}
+				fv, err := it.eval(fr, x.Call.Value)
+				if err != nil {
+					return k4val{}, err
+				}
+				if fv.kind == 7 && fv.s != "" {
+					for _, k := range strings.Split(fv.s, "\x00") {
 						fvs = append(fvs, k4val{kind: 3, s: k})
 					}
 				}
@@ -825,7 +907,11 @@ func k4run(p *Program, f *ssa.Function, m *Model, inline func(*ssa.Function) boo
 
 // enumerate all assignments of vals to the numeric keys and of {false,true} to
 // the bool keys; stops when fn returns false.
+var k4ValsFor map[string][]float64 // optional per-key value domains for the next k4enumerate call
+
 func k4enumerate(numKeys []string, vals []float64, boolKeys []string, fn func(m *Model) bool) int {
+	valsFor := k4ValsFor
+	k4ValsFor = nil
 	sort.Strings(numKeys)
 	sort.Strings(boolKeys)
 	n := 0
@@ -849,7 +935,11 @@ func k4enumerate(numKeys []string, vals []float64, boolKeys []string, fn func(m 
 		if i == len(numKeys) {
 			return recB(0)
 		}
-		for _, v := range vals {
+		vs := vals
+		if d, ok := valsFor[numKeys[i]]; ok {
+			vs = d
+		}
+		for _, v := range vs {
 			m.Num[numKeys[i]] = v
 			if !recN(i + 1) {
 				return false
@@ -928,6 +1018,8 @@ type k4spec struct {
 	// valid (optional) restricts the models to those satisfying the data
 	// type's representation invariant (e.g. min <= max).
 	valid func(m *Model) bool
+	// valsFor (optional) gives per-key value domains
+	valsFor map[string][]float64
 }
 
 func fmtNum(f float64) string { return fmt.Sprint(f) }
@@ -945,6 +1037,7 @@ func runK4Spec(c *Ctx, sp k4spec) {
 	fn := FuncName(f)
 	models := 0
 	var mismatch, undecided string
+	k4ValsFor = sp.valsFor
 	k4enumerate(sp.num, sp.vals, sp.bools, func(m *Model) bool {
 		if sp.valid != nil && !sp.valid(m) {
 			return true
